@@ -134,6 +134,24 @@ def ctrans_case(M, N, cfg, kind, base=DBL):
 
 SHAPES = {2: [(3, 5), (2, 9)], 3: [(2, 3, 5), (3, 2, 9)], 4: [(2, 3, 4, 5), (3, 2, 2, 9)], 5: [(2, 3, 2, 3, 5)], 6: [(2, 2, 3, 2, 2, 3)]}
 
+def trans_macro_cases(tier):
+    """transpose under the tuning macros FASTOR_TRANS_{OUTER,INNER}_BLOCK_SIZE (AVX blocked kernel only): shapes with at
+    least one full block of the configured size plus a remainder row/column, and two blocks in the blocked direction."""
+    out = []
+    for isa in (['avx2'] if tier != 'thorough' else ['avx', 'avx2', 'avx512']):
+        for ty in ((DBL,) if tier != 'thorough' else (DBL, FLT, INT)):
+            V = vec_elems(isa, ty)
+            for k in (1, 2, 3, 4):
+                if k * V > 16: continue
+                for (mac, shapes) in (('FASTOR_TRANS_OUTER_BLOCK_SIZE=%d' % k, [(V + 1, k * V + 1), (V, 2 * k * V)]),
+                                      ('FASTOR_TRANS_INNER_BLOCK_SIZE=%d' % k, [(k * V + 1, V + 1), (2 * k * V, V)])):
+                    for (M, N) in shapes:
+                        if M * N > 200: continue
+                        out.append(transpose_case(ty, M, N, Cfg(isa, 'c++14', macros=(mac,)), 'own'))
+            if tier == 'thorough' and 2 * V <= 8:
+                out.append(transpose_case(ty, 2 * V + 1, 2 * V + 1, Cfg(isa, 'c++14', macros=('FASTOR_TRANS_OUTER_BLOCK_SIZE=2', 'FASTOR_TRANS_INNER_BLOCK_SIZE=1')), 'own'))
+    return out
+
 def cases(tier, seed):
     rng = random.Random(seed)
     out = []
@@ -195,6 +213,7 @@ def cases(tier, seed):
                 perms = list(itertools.permutations(range(6)))
                 for p in sample(rng, perms, 6):
                     out.append(permute_case(INT, SHAPES[6][0], p, cfg, 'permute'))
+    out += trans_macro_cases(tier)
     # de-duplicate ids (sampling may repeat)
     seen = set(); res = []
     for c in out:
